@@ -584,7 +584,9 @@ private:
             } ).on_exception( [&] {
                 segment_type disabled_segment = nullptr;
                 if (table[0].compare_exchange_strong(disabled_segment, this->segment_allocation_failure_tag)) {
-                    size_type end_segment = table == this->my_embedded_table ? this->pointers_per_embedded_table : first_block;
+                    // Only the segments of the first block failed; entries behind it may already belong to other threads
+                    size_type end_segment = table == this->my_embedded_table ?
+                        std::min(first_block, size_type(this->pointers_per_embedded_table)) : first_block;
                     for (size_type i = 1; i < end_segment; ++i) {
                         table[i].store(this->segment_allocation_failure_tag, std::memory_order_release);
                     }
